@@ -161,11 +161,21 @@ def cases(tier, rng):
         if rng.random() < 0.5: put(pc.mutate(rng, t, 1), "mutated", True)
         if rng.random() < 0.3: put(" " + t + "  ", "padded", True)
     for s in pc.FLOAT_EDGE: put(s, "float-edge", False)
+    # beyond the small texts: deep terms (depth 4-6), long lists and argument lists, long and non-ASCII atoms, texts that bring a
+    # context close to (and over) the 1000-character limit of complex terms
+    for _ in range(120 if tier == "quick" else 3000):
+        put(pc.gen_term(rng, rng.randint(4, 6)), "grammar-deep", True)
+    for n_el in (9, 17, 40):
+        put("[" + ", ".join(pc.gen_term(rng, 1) for _ in range(n_el)) + "]", "long-list", True)
+        put("g(" + ", ".join(pc.gen_term(rng, 1) for _ in range(n_el)) + ")", "long-complex", True)
+    for s in ("an_atom_of_more_than_thirty_two_characters_in_all", "Zo\u00eb", "\u65e5\u672c\u8a9e", "\u03b1\u03b2\u03b3(\u00e9, \u65e5)", "[\u00e9, \u00e8 | $T]", "a" * 300, "\u00e9" * 300,
+              "a" * 985, "a" * 990, "a" * 993, "a" * 994, "a" * 995, "a" * 996, "a" * 997, "\u00e9" * 497, "\u00e9" * 994, "\u00e9" * 996):
+        put(s, "long", True)
     return out
 
 RULE = ("Every text s (signed numbers and d-d forms, punctuation atoms and escapes, all strings of length <= 3 (quick) / 4 "
         "(thorough) over the syntax alphabet, grammar-based terms of depth <= 3 with nested lists / complex terms / functions / "
-        "infix arithmetic, one-edit mutations, padded with blanks) is placed alone (parse_term), as the argument of "
+        "infix arithmetic, one-edit mutations, padded with blanks; also terms of depth 4-6, lists and argument lists of 9-40 elements, long and non-ASCII atoms, texts that bring f(s) to 990-1003 characters) is placed alone (parse_term), as the argument of "
         "parse_arguments, in [s], f(s), the query f(s) and f(s)., add(s), print(s), as either operand of `=` and of one other "
         "comparison operator, and as 1st/2nd of two and 2nd of three arguments / list elements. Correspondence: every case "
         "model vs implementation. Relations on the implementation's own results, for texts satisfying the theorem's side "
@@ -224,6 +234,10 @@ def claimed(ctx, s, scan_res):
     """do the theorem's side conditions hold for text s in this context?"""
     if trim(s) == "": return False
     base = ctx.split(":")[0]
+    # the theorems' hypothesis on length: a complex term (f(..), add(..), print(..)) of more than 1000 characters is an error
+    extra = {"complex": 3, "query": 3, "query.": 4, "complex2of2": 6, "function": 5, "builtin": 7}.get(base)
+    if extra is not None and len(s) + extra > 1000: return False
+    if len(s) > 1000 - 3 and ("(" in s): return False
     if base in ("arg", "arg2of2", "arg1of2", "arg2of3", "function", "builtin"):
         return args_plain(s) and (base == "arg" or parens_balanced(s))
     if base in ("complex", "query", "query.", "complex2of2"):
